@@ -19,6 +19,8 @@ type Spec struct {
 	Run func(run *ev.Run, c int)
 	// Race: the thorough tier additionally runs RaceCases cases in the -race binary.
 	RaceCases func(tier string) []int
+	// RequireTotals: counters that must reach a minimum over all cases together (else inconclusive).
+	RequireTotals map[string]int64
 	// DeathKey maps the log tail of a child that died without a result to a violation key, when such a death is
 	// itself the sanitizer's verdict (checkptr fault, race detector abort). Otherwise the death is inconclusive.
 	DeathKey func(logTail string) (string, bool)
